@@ -70,8 +70,9 @@ def move_vac_modes(samples: np.ndarray, N: Union[int, List[int]], crop: bool = F
 
     if crop and num_of_vac_modes != 0:
         # remove the final shots that include vac mode measurements
-        num_of_shots_with_vac_modes = -num_of_vac_modes // (np.prod(shape[1:]) + 1)
-        samples = samples[:num_of_shots_with_vac_modes]
+        # the appended vacuum entries occupy ceil(num_of_vac_modes / entries_per_shot) trailing shots
+        num_of_shots_with_vac_modes = -(-num_of_vac_modes // int(np.prod(shape[1:])))
+        samples = samples[: max(len(samples) - num_of_shots_with_vac_modes, 0)]
 
     return samples
 
